@@ -232,7 +232,16 @@ pub fn generate_program(rng: &mut Rng, case: &mut Case, thorough: bool) -> Profi
 
     // ---- main loop
     a.label("main");
+    // one program in twelve contains a long straight-line stretch (hundreds to a few thousand machine cycles in one block)
+    let long_at = if rng.chance(1, 12) { rng.below(p.statements as u64) as usize } else { usize::MAX };
     for st in 0..p.statements {
+        if st == long_at {
+            let n = rng.pick(&[300usize, 600, 1200, 2500]);
+            for _ in 0..n {
+                let i = safe_instruction(rng);
+                a.emit(&i);
+            }
+        }
         let kind = rng.below(16);
         match kind {
             0 | 1 => filler(&mut a, rng, 8),
